@@ -1,0 +1,102 @@
+//go:build verif
+
+// Command verifharness drives the real mltwist packages in-process for the
+// verification machinery in /verif. It reads one operation per line on stdin
+// ("<op> <args...>", anything after " => " is ignored), executes it against
+// the implementation and prints "<op> <args...> => <canonical result>".
+// Panics are recovered and printed as the result "PANIC".
+//
+// The whole package is guarded by the build tag "verif" and is invisible to
+// ordinary builds and tests.
+package main
+
+import (
+	"bufio"
+	"fmt"
+	"os"
+	"strings"
+)
+
+// opFunc executes one operation. Arguments are consumed from t.
+type opFunc func(t *tokens) string
+
+var ops = map[string]opFunc{}
+
+func register(name string, f opFunc) {
+	if _, ok := ops[name]; ok {
+		panic("duplicate op " + name)
+	}
+	ops[name] = f
+}
+
+type tokens struct {
+	toks []string
+	pos  int
+}
+
+type parseError string
+
+func (t *tokens) next() string {
+	if t.pos >= len(t.toks) {
+		panic(parseError("unexpected end of line"))
+	}
+	s := t.toks[t.pos]
+	t.pos++
+	return s
+}
+
+func (t *tokens) done() bool { return t.pos >= len(t.toks) }
+
+func (t *tokens) rest() []string {
+	r := t.toks[t.pos:]
+	t.pos = len(t.toks)
+	return r
+}
+
+func runLine(line string) (res string) {
+	defer func() {
+		if r := recover(); r != nil {
+			if pe, ok := r.(parseError); ok {
+				res = "BADLINE " + strings.ReplaceAll(string(pe), " ", "_")
+				return
+			}
+			if os.Getenv("VERIF_PANIC_TEXT") != "" {
+				fmt.Fprintf(os.Stderr, "panic on %q: %v\n", line, r)
+			}
+			res = "PANIC"
+		}
+	}()
+
+	t := &tokens{toks: strings.Fields(line)}
+	name := t.next()
+	f, ok := ops[name]
+	if !ok {
+		panic(parseError("unknown op " + name))
+	}
+	res = f(t)
+	if !t.done() {
+		panic(parseError("trailing tokens"))
+	}
+	return res
+}
+
+func main() {
+	in := bufio.NewReaderSize(os.Stdin, 1<<20)
+	out := bufio.NewWriterSize(os.Stdout, 1<<20)
+	defer out.Flush()
+
+	sc := bufio.NewScanner(in)
+	sc.Buffer(make([]byte, 1<<20), 1<<26)
+	for sc.Scan() {
+		line := sc.Text()
+		if i := strings.Index(line, " => "); i >= 0 {
+			line = line[:i]
+		}
+		line = strings.TrimSpace(line)
+		if line == "" || line[0] == '%' {
+			continue
+		}
+		fmt.Fprintf(out, "%s => %s\n", line, runLine(line))
+		out.Flush()
+	}
+}
